@@ -196,15 +196,15 @@ def r_setversion_guards(ctx):
     nv = f.params[1]
     calls = [c for c in P.calls_in(f) if isinstance(c.func, ast.Attribute) and c.func.attr == '_applyCommand']
     ctx.require(calls, 'setCodeVersion does not enqueue a command')
-    # own code version attribute: compared with > / < against the parameter and not the enabled version
+    # own code version attribute: the one the public status reports as 'self_code_version'
     own = None
-    for n in ast.walk(f.node):
-        if isinstance(n, ast.Compare):
-            for x in ast.walk(n):
-                a = P.self_attr(x, f.self_name)
-                if a and a != R.enabledVersion:
-                    own = a
-    ctx.require(own, 'own code version attribute not found')
+    gs = P.lookup_method(R.S, 'getStatus')
+    if gs is not None:
+        for n in ast.walk(gs.node):
+            if isinstance(n, ast.Assign) and isinstance(n.targets[0], ast.Subscript) and isinstance(n.targets[0].slice, ast.Constant) \
+                    and n.targets[0].slice.value == 'self_code_version':
+                own = P.self_attr(n.value, gs.self_name)
+    ctx.require(own, 'own code version attribute not found (getStatus no longer reports self_code_version)')
     n = U.node_containing(ex.cfg, calls[0])
     nvt = ex.tb.term(ast.Name(id=nv, ctx=ast.Load()))
     for nm, g in (('not above own code version', ('le', nvt, ex.tb.term(U.parse_expr('self.%s' % own)))),
